@@ -141,6 +141,8 @@ func c10Run(c *wk.Ctx, idx int64, seed int64, shared bool, scratch string) (tran
 	macs = append(macs, nic.RouterMAC, hw(c14Routers[1].mac))
 	sharedBuf := make([]byte, packet.EthMaxSize)
 	scribble := rand.New(rand.NewSource(seed ^ 0x5a5a))
+	var mdnsKept []packet.IPNameEntry // what ProcessMDNS returned so far (the last 16 entries), re-read at every later step
+	mdnsSeen := 0
 	offered := map[int]netip.Addr{}
 	acked := map[int]netip.Addr{}
 	xid := map[int][4]byte{}
@@ -273,7 +275,14 @@ func c10Run(c *wk.Ctx, idx int64, seed int64, shared bool, scratch string) (tran
 				if err != nil {
 					return
 				}
-				st.dispatch(frame)
+				if frame.PayloadID == packet.PayloadMDNS || frame.PayloadID == packet.PayloadLLMNR {
+					// the entries ProcessMDNS hands back are the very slices it keeps in its duplicate cache (and hands back
+					// again for a repeated response): they are kept here and read after the buffer was overwritten
+					v4, v6, _ := st.dns.ProcessMDNS(frame)
+					mdnsKept = append(append(mdnsKept, v4...), v6...)
+				} else {
+					st.dispatch(frame)
+				}
 				st.s.Notify(frame)
 			})
 			if shared {
@@ -336,6 +345,17 @@ func c10Run(c *wk.Ctx, idx int64, seed int64, shared bool, scratch string) (tran
 		}
 		sort.Strings(frames)
 		snap := c10Snapshot(st, names, leaseFile, macs)
+		if len(mdnsKept) > 0 {
+			var es []string
+			for _, x := range mdnsKept {
+				es = append(es, fmt.Sprintf("%s/%v/%s", x.Addr.MAC, x.Addr.IP, nameOf(x.NameEntry)))
+			}
+			snap = append(snap, "mdns-returned: "+strings.Join(es, " "))
+			mdnsSeen += len(mdnsKept)
+			if len(mdnsKept) > 16 {
+				mdnsKept = mdnsKept[len(mdnsKept)-16:]
+			}
+		}
 		transcript = append(transcript, fmt.Sprintf("step %d %s | notifications: %v | frames: %v", step, label, notes, frames))
 		for _, s := range snap {
 			transcript = append(transcript, fmt.Sprintf("step %d %s | %s", step, label, s))
@@ -347,6 +367,12 @@ func c10Run(c *wk.Ctx, idx int64, seed int64, shared bool, scratch string) (tran
 		}
 	}
 	retained += len(names)
+	if mdnsSeen > 0 {
+		retained++
+		if shared {
+			c.Obs("mdns_entries_reread_after_overwrite", int64(mdnsSeen))
+		}
+	}
 	for _, rt := range c14Routers {
 		if st.icmp6.FindRouter(rt.ip).Addr.IP.IsValid() {
 			retained++
